@@ -354,7 +354,13 @@ Returns:
                            datetime.today().strftime('%Y, %m, %d')),
           file=outfile)
     print(getattr(f, 'TIME_INTERVAL', 0), file=outfile)
-    print(f.INDEPENDENT_VARIABLE, file=outfile)
+    # the independent variable line is "name, units" like the others
+    indepvar = f.variables[f.INDEPENDENT_VARIABLE]
+    indepunits = getattr(indepvar, 'units', None)
+    if indepunits is None or indepunits == f.INDEPENDENT_VARIABLE:
+        print(f.INDEPENDENT_VARIABLE, file=outfile)
+    else:
+        print(delim.join([f.INDEPENDENT_VARIABLE, indepunits]), file=outfile)
     print('%d' % len(depvarkeys), file=outfile)
     print(delim.join(['1' for k in depvarkeys]), file=outfile)
     print(delim.join([str(getattr(f.variables[k], 'missing_value', -999))
